@@ -5,6 +5,9 @@ import (
 	"github.com/brutella/hc/crypto"
 	"github.com/brutella/hc/log"
 	"net"
+	"os"
+	"strconv"
+	"strings"
 	"sync"
 	"time"
 
@@ -39,7 +42,30 @@ type Connection struct {
 	notifyMutex   sync.Mutex
 	handling      bool
 	notifications [][]byte
+
+	// As long as the connection is not encrypted, the bytes of one request at a time are
+	// handed out: what follows a request on the wire is read after its response was
+	// written. When the request completed pair-verify, that is with the keys of the session.
+	plain plainState
 }
+
+// plainState keeps track of the requests which are read from a connection which is not encrypted
+type plainState struct {
+	mutex sync.Mutex
+	cond  *sync.Cond
+
+	head      []byte // the head of the current request as far as it was handed out
+	body      uint64 // the number of bytes of the body of the current request which are left
+	complete  bool   // the current request was handed out completely
+	unbounded bool   // it is not known where the current request ends
+
+	handling bool      // the current request is handled (the response is not written yet)
+	deadline time.Time // the read deadline
+	closed   bool
+}
+
+// maxPlainHead is the maximum size of a request head for which the end of the request is determined
+const maxPlainHead = 1 << 16
 
 // NewConnection returns a hap connection.
 func NewConnection(connection net.Conn, context Context) *Connection {
@@ -47,6 +73,7 @@ func NewConnection(connection net.Conn, context Context) *Connection {
 		connection: connection,
 		context:    context,
 	}
+	conn.plain.cond = sync.NewCond(&conn.plain.mutex)
 
 	// Setup new session for the connection
 	session := NewSession(conn)
@@ -157,6 +184,11 @@ func (con *Connection) SetHandlingRequest(handling bool) {
 	con.notifyMutex.Lock()
 	defer con.notifyMutex.Unlock()
 
+	con.plain.mutex.Lock()
+	con.plain.handling = handling
+	con.plain.cond.Broadcast()
+	con.plain.mutex.Unlock()
+
 	con.handling = handling
 	if handling == false {
 		for _, b := range con.notifications {
@@ -197,21 +229,152 @@ func (con *Connection) Read(b []byte) (int, error) {
 		return con.DecryptedRead(b)
 	}
 
-	// Wait for the next bytes without consuming them. The session may switch to
-	// encryption while this read is blocked (the http server reads in the background
-	// while the pair-verify request is handled): bytes which arrive after the switch
-	// are encrypted and must not be returned as they are.
-	if con.buffered == nil {
-		con.buffered = bufio.NewReader(con.connection)
-	}
-	if _, err := con.buffered.Peek(1); err != nil {
-		return 0, err
-	}
-	if con.getDecrypter() != nil {
-		return con.DecryptedRead(b)
+	if len(b) == 0 {
+		return 0, nil
 	}
 
-	return con.buffered.Read(b)
+	for {
+		// What follows a request is read after the response
+		if err := con.plain.waitForResponse(); err != nil {
+			return 0, err
+		}
+
+		// Wait for the next bytes without consuming them. The session may switch to
+		// encryption while this read is blocked (the http server reads in the background
+		// while the pair-verify request is handled): bytes which arrive after the switch
+		// are encrypted and must not be returned as they are.
+		if con.buffered == nil {
+			con.buffered = bufio.NewReader(con.connection)
+		}
+		if _, err := con.buffered.Peek(1); err != nil {
+			return 0, err
+		}
+		if con.getDecrypter() != nil {
+			return con.DecryptedRead(b)
+		}
+
+		n := con.buffered.Buffered()
+		if n > len(b) {
+			n = len(b)
+		}
+		data, _ := con.buffered.Peek(n)
+		if n = con.plain.scan(data); n > 0 {
+			copy(b, data[:n])
+			con.buffered.Discard(n)
+			return n, nil
+		}
+	}
+}
+
+// RequestEndKnown returns false when it is not known where the request ends which is read from the
+// connection at the moment (e.g. because its body is chunked). The bytes which follow such a
+// request may have been handed out together with the request.
+func (con *Connection) RequestEndKnown() bool {
+	con.plain.mutex.Lock()
+	defer con.plain.mutex.Unlock()
+
+	return con.plain.unbounded == false
+}
+
+// waitForResponse blocks while the current request was handed out completely and its response
+// is not written yet. Then the next request begins.
+func (p *plainState) waitForResponse() error {
+	p.mutex.Lock()
+	defer p.mutex.Unlock()
+
+	for p.complete && p.handling {
+		if p.closed {
+			return io.EOF
+		}
+		if p.deadline.IsZero() == false && time.Now().Before(p.deadline) == false {
+			return os.ErrDeadlineExceeded
+		}
+		p.cond.Wait()
+	}
+
+	if p.complete {
+		p.complete, p.unbounded, p.head, p.body = false, false, nil, 0
+	}
+
+	return nil
+}
+
+// scan returns the number of bytes at the begin of data which belong to the current request.
+func (p *plainState) scan(data []byte) int {
+	p.mutex.Lock()
+	defer p.mutex.Unlock()
+
+	n := 0
+	for n < len(data) && p.complete == false {
+		if p.unbounded {
+			return len(data)
+		}
+
+		if p.body > 0 {
+			take := uint64(len(data) - n)
+			if take > p.body {
+				take = p.body
+			}
+			n += int(take)
+			p.body -= take
+			p.complete = p.body == 0
+			continue
+		}
+
+		p.head = append(p.head, data[n])
+		n++
+		if len(p.head) > maxPlainHead {
+			p.unbounded = true
+		} else if bytes.HasSuffix(p.head, []byte("\n\r\n")) || bytes.HasSuffix(p.head, []byte("\n\n")) {
+			if len(bytes.TrimSpace(p.head)) == 0 {
+				// empty lines before a request
+				p.head = p.head[:0]
+				continue
+			}
+			length, ok := bodyLength(p.head)
+			p.head = nil
+			p.body = length
+			p.unbounded = ok == false
+			p.complete = ok && length == 0
+		}
+	}
+
+	return n
+}
+
+// bodyLength returns the length of the body of the request with the argument head.
+// The second return value is false when the length is not known.
+func bodyLength(head []byte) (uint64, bool) {
+	var length uint64
+	var found bool
+
+	lines := bytes.Split(head, []byte("\n"))
+	for _, line := range lines[1:] {
+		line = bytes.TrimRight(line, "\r")
+		if len(line) == 0 {
+			continue
+		}
+		if line[0] == ' ' || line[0] == '\t' {
+			// a header which continues on the next line
+			return 0, false
+		}
+		colon := bytes.IndexByte(line, ':')
+		if colon < 0 {
+			return 0, false
+		}
+		switch strings.ToLower(string(line[:colon])) {
+		case "transfer-encoding":
+			return 0, false
+		case "content-length":
+			n, err := strconv.ParseUint(string(bytes.TrimSpace(line[colon+1:])), 10, 63)
+			if err != nil || (found && n != length) {
+				return 0, false
+			}
+			length, found = n, true
+		}
+	}
+
+	return length, true
 }
 
 // Close closes the connection and deletes the related session from the context.
@@ -224,6 +387,11 @@ func (con *Connection) Close() error {
 	if session := con.context.GetSessionForConnection(con.connection); session == nil || session.Connection() == net.Conn(con) {
 		con.context.DeleteSessionForConnection(con.connection)
 	}
+
+	con.plain.mutex.Lock()
+	con.plain.closed = true
+	con.plain.cond.Broadcast()
+	con.plain.mutex.Unlock()
 
 	return con.connection.Close()
 }
@@ -240,17 +408,35 @@ func (con *Connection) RemoteAddr() net.Addr {
 
 // SetDeadline calls SetDeadline() of the underlying connection
 func (con *Connection) SetDeadline(t time.Time) error {
+	con.plain.setDeadline(t)
 	return con.connection.SetDeadline(t)
 }
 
 // SetReadDeadline calls SetReadDeadline() of the underlying connection
 func (con *Connection) SetReadDeadline(t time.Time) error {
+	con.plain.setDeadline(t)
 	return con.connection.SetReadDeadline(t)
 }
 
 // SetWriteDeadline calls SetWriteDeadline() of the underlying connection
 func (con *Connection) SetWriteDeadline(t time.Time) error {
 	return con.connection.SetWriteDeadline(t)
+}
+
+// setDeadline sets the deadline of a read which waits for the response to the current request
+func (p *plainState) setDeadline(t time.Time) {
+	p.mutex.Lock()
+	p.deadline = t
+	p.cond.Broadcast()
+	p.mutex.Unlock()
+
+	if d := time.Until(t); t.IsZero() == false && d > 0 {
+		time.AfterFunc(d, func() {
+			p.mutex.Lock()
+			p.cond.Broadcast()
+			p.mutex.Unlock()
+		})
+	}
 }
 
 // getEncrypter returns the session's Encrypter, otherwise nil
